@@ -89,18 +89,37 @@ func (h *hashRanges) removeElement(elHash uint64) {
 		rng = h.getBottomRange(rng, elHash)
 		rng.elements--
 	}
-	parent := rng.parent
-	if parent.elements <= h.compareThreshold && parent != h.topRange {
-		ranges := genTupleRanges(parent.from, parent.to, h.divideFactor)
-		for _, tuple := range ranges {
-			child := h.ranges[tuple]
-			delete(h.ranges, tuple)
-			delete(h.dirty, child)
+	// the highest divided range (below the top one) that fits the threshold again is merged back
+	// into a single leaf: merging only the immediate parent would leave its own ancestors divided
+	// although they hold no more elements than the parent does
+	var merge *hashRange
+	for parent := rng.parent; parent != nil && parent != h.topRange; parent = parent.parent {
+		if parent.elements <= h.compareThreshold {
+			merge = parent
 		}
-		parent.isDivided = false
-		h.dirty[parent] = struct{}{}
+	}
+	if merge != nil {
+		h.removeSubRanges(merge)
+		merge.isDivided = false
+		h.dirty[merge] = struct{}{}
 	} else {
 		h.dirty[rng] = struct{}{}
+	}
+}
+
+// removeSubRanges drops all the ranges below rng from the index
+func (h *hashRanges) removeSubRanges(rng *hashRange) {
+	ranges := genTupleRanges(rng.from, rng.to, h.divideFactor)
+	for _, tuple := range ranges {
+		child := h.ranges[tuple]
+		if child == nil {
+			continue
+		}
+		if child.isDivided {
+			h.removeSubRanges(child)
+		}
+		delete(h.ranges, tuple)
+		delete(h.dirty, child)
 	}
 }
 
